@@ -109,7 +109,10 @@ class _PG(Contract):
     prop = ("C15",)
 
     def requires(self, c):
-        return mv(c.old.self) + axioms()
+        return mv(c.old.self)
+
+    def axioms(self, c):
+        return axioms()  # FieldInfo(annotation=a).annotation == a (definitional: assumed, never a precondition)
 
 
 def with_mv(cls):
@@ -311,7 +314,7 @@ class Update(_PG):
     loops = {0: LoopSpec(anchor="grammar.__model.model_fields.items()", modifies=("names_to_annotations",), inv=_update_inv, local_types={"names_to_annotations": NTT})}
 
     def requires(self, c):
-        return mv(c.old.self) + axioms() + [("not-itself", z3.BoolVal(c.arg("grammar") != c.arg("self") and model(c.old.grammar).ref != model(c.old.self).ref))]
+        return mv(c.old.self) + [("not-itself", z3.BoolVal(c.arg("grammar") != c.arg("self") and model(c.old.grammar).ref != model(c.old.self).ref))]
 
     def ensures(self, c):
         g0, g1, o = c.old.self, c.new.self, c.old.grammar
@@ -342,22 +345,21 @@ class Validate(_PG):
 
 @register
 class Schema(_PG):
-    """The JSON schema of the CURRENT fields; read-only."""
+    """The JSON schema of the CURRENT fields (the model is rebuilt first when flagged - d39649c); the fields are not changed."""
 
     targets = (PG + ".schema",)
     returns = TVal
+    modifies = ("self", M)
 
     def requires(self, c):
-        return mv(c.old.self)  # (without the FieldInfo axiom: not needed here, and it keeps the counter-model of the known finding cheap)
-
-    def finding_regions(self, c):
-        return {"model-needs-rebuild": flag(c.old.self)}
+        return mv(c.old.self)
 
     def ensures(self, c):
-        g0 = c.old.self
+        g0, g1 = c.old.self, c.new.self
         k = kq("k!ps")
         f = fields(g0)
-        return [("schema:lists-the-current-fields", z3.ForAll([k], z3.And(P.schema_names(c.result)[k] == f.has(k), z3.Implies(f.has(k), P.schema_fields(c.result)[k] == f.get(k)))))]
+        return mv(g1) + [("schema:lists-the-current-fields", z3.ForAll([k], z3.And(P.schema_names(c.result)[k] == f.has(k), z3.Implies(f.has(k), P.schema_fields(c.result)[k] == f.get(k))))),
+                         ("fields-kept", same_dict(fields(g1), f))] + parts_kept(g0, g1)
 
 
 @register
@@ -382,21 +384,22 @@ class Len(_PG):
 
 @register
 class CopyInto(_PG):
-    """The other grammar gets the same fields in its OWN model (editing one grammar never changes the other), valid for it."""
+    """The other grammar gets the same fields in its OWN new model whose fields dictionary is a copy (editing one grammar never changes the other - e892c2a),
+    flagged for rebuild; the source is not changed."""
 
     targets = (PG + "._copy",)
     params = {"grammar": TObj(PG)}
     modifies = ("grammar",)
 
-    def finding_regions(self, c):
-        return {"always": z3.BoolVal(True)}
-
     def ensures(self, c):
-        s, o1 = c.old.self, c.new.grammar
+        s, o0, o1 = c.old.self, c.old.grammar, c.new.grammar
         return [(f"copy:{l}", f) for l, f in mv(o1)] + [
             ("copy:same-fields", same_dict(fields(o1), fields(s))),
-            # (last: fails on the pinned tree - copy.copy of a class object is the class itself)
-            ("copy:own-model", z3.BoolVal(model(o1).ref != model(s).ref and fields(o1).ref != fields(s).ref))]
+            ("copy:own-model", z3.BoolVal(model(o1).ref != model(s).ref and fields(o1).ref != fields(s).ref and built(o1).ref != built(s).ref)),
+            ("copy:new-model", z3.BoolVal(model(o1).ref != model(o0).ref)),
+            ("copy:flag-raised", flag(o1)),
+            ("copy:kept:name", o1.name == o0.name),
+            ("copy:kept:parts", z3.BoolVal(o1._defaults.ref == o0._defaults.ref and o1._required_names.ref == o0._required_names.ref))]
 
 
 # ---------------------------------------------------------------------------- conversion to a SimpleGrammar
@@ -446,10 +449,13 @@ class ToSimplePydantic(Contract):
     self_class = PG
     returns = TObj(G.SG)
 
+    def axioms(self, c):
+        return axioms()
+
     def requires(self, c):
         g = c.old.self
         k = kq("k!wfp")
-        return mv(g) + axioms() + G.type_facts() + simple_types_facts() + [
+        return mv(g) + G.type_facts() + simple_types_facts() + [
             ("wfg:required-names-are-elements", z3.ForAll([k], z3.Implies(req(g).member[k], fields(g).member[k]))),
             ("wfg:defaults-are-elements", z3.ForAll([k], z3.Implies(dfl(g).member[k], fields(g).member[k]))),
             ("wfg:name-is-not-empty", G._nonempty(g.name))]
